@@ -5,6 +5,7 @@
 From RBQL Require Import Base Sx EntryLike EntryCsv EntryReader EntryTextLayer EntryTable EntryEngine EntryParser EntryHeader EntryHeaderJs EntryJoin EntryFront EntryJsKey EntryNumLit EntryJsSort.
 From RBQL Require Import EntryVarSpell.     (* 535-537 variable spellings (C08) *)
 From RBQL Require Import EntryStatic2.      (* 330 static phase of a query (C14) *)
+From RBQL Require Import EntryCli.          (* 610 command-line outcome function (C13) *)
 
 Definition first_some (l : list (option sx)) : sx :=
   match flat_map (fun o => match o with Some v => [v] | None => [] end) l with
@@ -15,4 +16,4 @@ Definition first_some (l : list (option sx)) : sx :=
 Definition dispatch (code : N) (x : sx) : sx :=
   first_some [dispatch_like code x; dispatch_csv code x; dispatch_reader code x; dispatch_textlayer code x; dispatch_table code x;
               dispatch_engine code x; dispatch_parser code x; dispatch_header code x; dispatch_headerjs code x; dispatch_join code x; dispatch_front code x; dispatch_jskey code x; dispatch_numlit code x; dispatch_jssort code x;
-              dispatch_varspell code x; dispatch_static2 code x].
+              dispatch_varspell code x; dispatch_static2 code x; dispatch_cli code x].
